@@ -206,6 +206,10 @@ SF(w) == [op |-> "set", s |-> 1, which |-> w]
 (* one object: every combination of the three result-selecting flags, a parse, every flag read back through its setter, another parse *)
 SG(w) == [op |-> "get", s |-> 1, which |-> w]       \* read a flag back: the setter called with 1 returns the previous value
 ScriptFlags == <<SA("create", 1), SF("one"), SF("cost"), SF("rec"), SA("define", 1), SA("parse", 1), SG("one"), SG("cost"), SG("rec"), SA("parse", 1)>>
+(* one object parsed three times, every parse with any pair of allocation functions (the caller's pair, alloc only, the defaults,
+   the refused NULL/free pair); the harness keeps every tree and releases it, with the functions of ITS parse, after all calls *)
+SM(s) == [op |-> "parsem", s |-> s]
+ScriptModes == <<SA("create", 1), SA("define", 1), SM(1), SM(1), SM(1)>>
 ScriptDefsBad == {1, 3, 4, 5, 8, 10}      \* with definitions that fail while terminals (4), rules (5) or translations (8) are read
 ScriptStep(script, defs) ==
   LET i == Len(hist) + 1 IN
@@ -217,6 +221,7 @@ ScriptStep(script, defs) ==
        \/ e.op = "get" /\ SetFlag(e.s, e.which, 1)
        \/ e.op = "define" /\ \E d \in defs : Define(e.s, d, FALSE, FALSE)
        \/ e.op = "parse" /\ \E w \in ScriptInputs : Parse(e.s, w, "ff")
+       \/ e.op = "parsem" /\ \E w \in {<<1>>, <<1, 1>>}, m \in AllocModes : Parse(e.s, w, m)
 ScriptFinish(script) ==
   /\ Len(hist) = Len(script)
   /\ PrintT(<<"VEC", ToJson([hist |-> hist])>>)
@@ -225,6 +230,7 @@ ScriptFinish(script) ==
 SpecTwo == Init /\ [][ScriptStep(ScriptTwo, ScriptDefs) \/ ScriptFinish(ScriptTwo)]_<<obj, hist, faults>>
 SpecOne == Init /\ [][ScriptStep(ScriptOne, ScriptDefsBad) \/ ScriptFinish(ScriptOne)]_<<obj, hist, faults>>
 SpecFlags == Init /\ [][ScriptStep(ScriptFlags, ScriptDefs) \/ ScriptFinish(ScriptFlags)]_<<obj, hist, faults>>
+SpecModes == Init /\ [][ScriptStep(ScriptModes, ScriptDefs) \/ ScriptFinish(ScriptModes)]_<<obj, hist, faults>>
 
 (* ---------- invariants of the machine ---------- *)
 TypeOK == \A s \in Slots : obj[s].life \in {"dead", "undef", "ok", "faulted"} /\ obj[s].la \in 0..2
